@@ -291,7 +291,7 @@ func cfg2FA(c *RunCtx, id string, unit int) (world.Cfg, *sim.Sim, bool) {
 func init() {
 	register(&Check{
 		ID: "C02", Level: "exploration",
-		Rule:  "histories with an adversary who knows every password and owns accounts/phones: directed attack templates (two SMS logins in one session at gaps around the resend limit, cross-kind pending, recover-and-login, OTP login, enrolment-then-victim) interleaved with random noise, plus random walks; after every login-type request, a session that becomes a 2FA-enabled account must come from the matching validate endpoint with a TOTP code of ITS stored secret (steps -2..+2), an SMS code the outbox shows was delivered to ITS registered number, or one of its unused recovery codes. distinct_nontrivial = distinct (flow, code class, account state, session state, mode, outcome) signatures on 2FA-enabled accounts.",
+		Rule:  "histories with an adversary who knows every password and owns accounts/phones: directed attack templates (two SMS logins in one session at gaps around the resend limit, cross-kind pending, recover-and-login, OTP login, enrolment-then-victim) interleaved with random noise, plus random walks; after every login-type request, a session that becomes a 2FA-enabled account must come from the matching validate endpoint with a TOTP code of ITS stored secret for the current 30-second period or one either side (the TOTP dependency is put on the virtual clock by the build overlay, so 'stale' probes sit exactly 2, 3, 10, 29, 31, 60 periods away), an SMS code the outbox shows was delivered to ITS registered number, or one of its unused recovery codes. distinct_nontrivial = distinct (flow, code class, account state, session state, mode, outcome) signatures on 2FA-enabled accounts.",
 		Units: func(t string) int { return tierN(t, 800, 25000) },
 		Run: func(c *RunCtx, unit int) {
 			_, s, ok := cfg2FA(c, "C02", unit)
@@ -304,7 +304,7 @@ func init() {
 			return map[string]int{"2fa-complete:totp-code": 5, "2fa-complete:sms-code": 5, "2fa-complete:recovery": 3, "template:sms-two-logins-one-session": 10, "template:cross-kind-pending": 3, "template:recover-login-2fa": 5}
 		},
 		Assumptions: []string{
-			"TOTP validity is judged on the real clock (pquerna/otp reads it): codes for steps -2..+2 of the stored secret count as valid, 'stale' probes are >= 20 steps away",
+			"TOTP validity: the current period and one either side (the tolerance totp.Validate documents); the dependency's clock read is redirected to the virtual clock by the build overlay",
 			"an SMS code counts as the account's own only if the SMS outbox delivered exactly that text to the number stored for the account",
 		},
 	})
